@@ -7,6 +7,17 @@ op's outcome (id / error kind) must agree.  The Lean theorems (Props/C15.lean) s
 every reachable model state satisfies the store invariant and the frame conditions, so a
 state on which the implementation differs from the model is a state that violates C15
 (or is unreachable for correct code): the op prefix is the failing history.
+
+Input forms (coverage round G15).  `add_rxn` / `merge` accept more than the mapping sides and
+the `CRNHyperGraph` argument the first streams use; the streams `forms-small`, `random-forms`,
+`rxnside-falsy` and `rxnside-shared` drive the other documented forms through the same
+comparison: sides as iterables of labels / `(species, count)` tuples / mixed, as tuple, generator
+or string, as `RXNSide(data)` / `RXNSide.from_any(data)` objects (fresh or shared between calls),
+`merge` of a foreign object exposing `edge_list()` (edges = `HyperEdge` built from raw sides or
+plain objects with missing / `None` / duplicated ids and missing / empty rule), of an object
+without `edge_list()` (`TypeError`, nothing touched) and of a network into itself.  The model side
+is `rawOfItems` / `Store.mergeForeign` of SynKitModel/Store.lean (theorems `normSide_items_spec`,
+`mergeForeign_edges`, and `inv_reachable`, whose op alphabet contains these ops).
 """
 import itertools
 import json
@@ -31,11 +42,96 @@ THEOREMS = [
     "SynKit.Store.parseRxns_only_appends",
     "SynKit.Store.parseRxnsRules_length_mismatch",
     "SynKit.Store.suffix_unparsed_example",
+    "SynKit.Store.mergeForeign_edges",
+    "SynKit.Store.normSide_items_spec",
 ]
 
 
 # ---------------------------------------------------------------- implementation adapter
 def impl_dump(H):
+    try:
+        return _impl_dump(H)
+    except Exception as ex:      # a store the public observers choke on is itself a divergence
+        return {"dump_error": f"{type(ex).__name__}: {ex}"}
+
+
+# side forms that hand `RXNSide(...)` a falsy non-mapping (documented: "None (defaults to empty side)")
+FALSY_FORMS = ("rxnside_none", "rxnside_list0", "rxnside_tuple0")
+SIDE_FORMS = ("dict", "list", "tuple", "gen", "str", "rxnside", "rxnside_map", "from_any")
+
+
+def mk_side(items, form, counts=None):
+    """Build the Python object for one side. `items`: list of [species, count] (pair) or str (label).
+    Returns (object, form actually used)."""
+    from synkit.CRN.Hypergraph.rxn import RXNSide
+
+    seq = [tuple(it) if isinstance(it, list) else it for it in items]
+    all_pairs = all(isinstance(it, tuple) for it in seq)
+    uniq = all_pairs and len({it[0] for it in seq}) == len(seq)
+    if form in FALSY_FORMS:
+        if seq:
+            form = "rxnside"
+        else:
+            return RXNSide({"rxnside_none": None, "rxnside_list0": [], "rxnside_tuple0": ()}[form]), form
+    if form == "dict" and not uniq:
+        form = "list"
+    if form == "str" and not (seq and all(isinstance(it, str) and len(it) == 1 for it in seq)):
+        form = "list"
+    if form == "dict":
+        return dict(seq), form
+    if form == "list":
+        return list(seq), form
+    if form == "tuple":
+        return tuple(seq), form
+    if form == "gen":
+        return (it for it in seq), form
+    if form == "str":
+        return "".join(seq), form
+    if form == "rxnside_map" and not (uniq and seq):
+        form = "rxnside"
+    if form == "rxnside_map":
+        return RXNSide(dict(seq)), form
+    if form == "rxnside":           # RXNSide(data) with an iterable: normalised once, by __post_init__
+        if not seq:
+            return RXNSide(), "rxnside_noarg"
+        return RXNSide(list(seq)), form
+    if form == "from_any":
+        return RXNSide.from_any(list(seq)), form
+    raise AssertionError(form)
+
+
+class _NoEdgeList:
+    """An object `merge` must refuse."""
+
+
+def mk_foreign(edges, how):
+    """A 'hypergraph-like object' for `merge`: `edge_list()` returns the described edges."""
+    from types import SimpleNamespace
+    from synkit.CRN.Hypergraph.hyperedge import HyperEdge
+
+    if edges is None:
+        return _NoEdgeList()
+    objs = []
+    for e in edges:
+        r, _ = mk_side(e["r"], e.get("rform", "dict"))
+        p, _ = mk_side(e["p"], e.get("pform", "dict"))
+        if e.get("kind") == "hyperedge":
+            o = HyperEdge(e["id"], r, p) if e["rule"] is None else HyperEdge(e["id"], r, p, rule=e["rule"])
+        else:
+            o = SimpleNamespace(reactants=r, products=p)
+            if e["id"] is not None or e.get("idattr") == "none":
+                o.id = e["id"]
+            if e["rule"] is not None:
+                o.rule = e["rule"]
+        objs.append(o)
+
+    class Other:
+        def edge_list(self):
+            return iter(objs) if how == "iter" else (tuple(objs) if how == "tuple" else list(objs))
+    return Other()
+
+
+def _impl_dump(H):
     import numpy as np
 
     edges = []
@@ -50,25 +146,44 @@ def impl_dump(H):
 
     so, eo, m = H.incidence_matrix(sparse=True)
     inc = sorted([s, e, int(v)] for (s, e), v in m.items() if v != 0)
+    so3, eo3, m3 = H.stoichiometric_matrix(sparse=True)      # documented alias of incidence_matrix
+    alias_ok = (list(so3), list(eo3), dict(m3)) == (list(so), list(eo), dict(m))
     so2, eo2, dense = H.incidence_matrix(sparse=False)
     inc_dense = sorted([so2[i], eo2[j], int(dense[i, j])] for i in range(len(so2)) for j in range(len(eo2)) if dense[i, j] != 0)
     return {"species": sorted(H.species), "edges": edges, "in": idx(H.species_to_in_edges), "out": idx(H.species_to_out_edges),
             "mol": sorted([s, str(v)] for s, v in H.species_to_mol.items()), "inc": inc, "inc_dense": inc_dense,
-            "species_order": list(so), "edge_order": list(eo)}
+            "species_order": list(so), "edge_order": list(eo), "alias_ok": alias_ok}
 
 
-def impl_run(n, ops):
+def impl_run(n, ops, model_ops=None):
+    """Run the history on real stores. `model_ops` (a list to fill) receives the history as the model
+    has to see it: identical, except that a side given as a caller-held shared RXNSide object is
+    spelled out with the value that object had at the moment it was passed."""
     from synkit.CRN.Hypergraph.hypergraph import CRNHyperGraph
 
     W = [CRNHyperGraph() for _ in range(n)]
     steps = []
+    pool = {}            # caller-held RXNSide objects handed to more than one add_rxn call
+    seen_by_model = []   # the ops with every shared side replaced by the value the object had when it was passed
+
+    def side(op, which, eff):
+        key = op.get(which + "share")
+        if key is not None:
+            if key not in pool:
+                pool[key] = mk_side(op[which], "rxnside")[0]
+            eff[which] = [[sp, int(c)] for sp, c in pool[key].data.items()]
+            return pool[key]
+        return mk_side(op[which], op.get(which + "form", "dict"))[0]
+
     for op in ops:
+        eff = dict(op)
+        seen_by_model.append(eff)
         k = op["k"]
         H = W[k]
         try:
             o = op["op"]
             if o == "add":
-                e = H.add_rxn(dict(op["r"]), dict(op["p"]), rule=op["rule"], edge_id=op["eid"])
+                e = H.add_rxn(side(op, "r", eff), side(op, "p", eff), rule=op["rule"], edge_id=op["eid"])
                 out = {"id": e.id}
             elif o == "remove":
                 H.remove_rxn(op["id"]); out = "ok"
@@ -76,6 +191,8 @@ def impl_run(n, ops):
                 H.remove_species(op["sp"], prune_orphans=op["prune"]); out = "ok"
             elif o == "merge":
                 H.merge(W[op["j"]], prefix_edges=op["pfx"]); out = "ok"
+            elif o == "mergeEdges":
+                H.merge(mk_foreign(op["edges"], op.get("how", "list")), prefix_edges=op["pfx"]); out = "ok"
             elif o == "copy":
                 W[op["j"]] = H.copy(); out = "ok"
             elif o == "assignMol":
@@ -109,7 +226,13 @@ def impl_run(n, ops):
             out = "ValueError"
         except IndexError:
             out = "IndexError"
+        except TypeError:
+            out = "TypeError"
+        except Exception as ex:      # anything else is not an outcome the model knows: a divergence
+            out = "unexpected " + type(ex).__name__
         steps.append({"out": out, "world": [impl_dump(h) for h in W]})
+    if model_ops is not None:
+        model_ops.extend(seen_by_model)
     return steps
 
 
@@ -122,7 +245,7 @@ def norm_model_store(s):
 
 def norm_impl_store(s):
     s = dict(s)
-    for k in ("inc_dense", "species_order", "edge_order"):
+    for k in ("inc_dense", "species_order", "edge_order", "alias_ok"):
         s.pop(k, None)
     s["edges"] = [{k: v for k, v in e.items() if k != "eid_field"} for e in s["edges"]]
     return s
@@ -138,10 +261,14 @@ def compare(impl_steps, model_steps, last_only=False):
         if last_only and t != len(impl_steps) - 1:
             continue
         for k, (sa, sb) in enumerate(zip(a["world"], b["world"])):
+            if "dump_error" in sa:
+                return t, f"store {k}: the public observers raise on the stored state ({sa['dump_error']})"
             na, nb = norm_impl_store(sa), norm_model_store(sb)
             for key in nb:
                 if na[key] != nb[key]:
                     return t, f"store {k} field {key}: impl={json.dumps(na[key])[:300]} model={json.dumps(nb[key])[:300]}"
+            if not sa["alias_ok"]:
+                return t, f"store {k}: stoichiometric_matrix() differs from incidence_matrix()"
             if sa["inc_dense"] != sa["inc"]:
                 return t, f"store {k}: dense incidence matrix differs from sparse mapping"
             if sa["species_order"] != sa["species"] or sa["edge_order"] != [e["id"] for e in sa["edges"]]:
@@ -182,7 +309,160 @@ def alphabet_small():
     ops.append({"op": "addFromStr", "k": 0, "reaction": "A>>B", "rule": "R1", "suffix": False})
     ops.append({"op": "parseRxns", "k": 0, "items": [["A>>B", None], ["B+C>>A | rule=R1", None]], "default_rule": "r",
                 "suffix": True, "prefer_suffix": False, "form": "strings"})
+    # other documented input forms (round G15)
+    ops.append({"op": "add", "k": 0, "r": ["A", "B", "A"], "p": [["C", 1], ["C", 1]], "rule": None, "eid": None,
+                "rform": "list", "pform": "tuple"})
+    ops.append({"op": "add", "k": 0, "r": [["B", 2]], "p": ["A"], "rule": "R1", "eid": None,
+                "rform": "rxnside", "pform": "from_any"})
+    ops.append({"op": "mergeEdges", "k": 0, "pfx": False, "how": "list", "edges": [
+        {"kind": "ns", "id": None, "idattr": "none", "rule": "", "r": ["A"], "p": [["B", 2]], "rform": "list", "pform": "dict"},
+        {"kind": "hyperedge", "id": "r_1", "rule": "R1", "r": [["C", 1]], "p": ["A", "A"], "rform": "dict", "pform": "list"}]})
+    ops.append({"op": "mergeEdges", "k": 0, "pfx": True, "how": "iter", "edges": [
+        {"kind": "ns", "id": "r_2", "rule": None, "r": [["B", 1]], "p": [], "rform": "list", "pform": "list"}]})
+    ops.append({"op": "mergeEdges", "k": 0, "pfx": True, "edges": None})
+    ops.append({"op": "merge", "k": 0, "j": 0, "pfx": False})
+    ops.append({"op": "merge", "k": 0, "j": 0, "pfx": True})
     return ops
+
+
+# ---------------------------------------------------------------- input forms (round G15)
+ITEM_LISTS = [
+    [], ["A"], ["A", "B", "A"], ["", "A"], [""], [["A", 1]], [["A", 2], ["A", 3]], [["A", 0]], [["B", -1], ["C", 2]],
+    [["C", 1], "A", ["A", 2], ""], ["C", "B", "A"], [["", 2]], [["B", 12], ["A", 1]], [["A", 0], ["B", 1], ["B", 1]],
+]
+
+
+def forms_small():
+    """Every side form x every item list on the reactant side and on the product side, followed by
+    the edits that read the stored sides back (strip a species, remove the reaction)."""
+    cases = []
+    for form in SIDE_FORMS:
+        for items in ITEM_LISTS:
+            for which in ("r", "p"):
+                other = [["D", 1]] if items in ([], [""], [["A", 0]]) or which == "p" else []
+                add = {"op": "add", "k": 0, "rule": None, "eid": None, "r": items if which == "r" else other,
+                       "p": items if which == "p" else other, which + "form": form,
+                       ("p" if which == "r" else "r") + "form": "dict"}
+                cases.append((2, [add, {"op": "copy", "k": 0, "j": 1}, {"op": "removeSpecies", "k": 0, "sp": "A", "prune": True},
+                                  {"op": "remove", "k": 1, "id": "r_1"}]))
+        # both sides empty in this form: ValueError after the counter moved
+        cases.append((1, [{"op": "add", "k": 0, "rule": None, "eid": None, "r": [], "p": [""], "rform": form, "pform": form},
+                          {"op": "add", "k": 0, "rule": None, "eid": None, "r": ["A"], "p": [], "rform": form, "pform": form}]))
+    return cases
+
+
+def random_items(rnd, SP):
+    n = rnd.choice([0, 1, 1, 2, 2, 3, 4])
+    kind = rnd.choice(["pairs", "labels", "mixed", "uniq"])
+    if kind == "uniq":
+        sps = [s for s in SP if rnd.random() < 0.3]
+        rnd.shuffle(sps)
+        return [[s, rnd.choice([1, 1, 2, 3, 12, 0, -1])] for s in sps]
+    items = []
+    for _ in range(n):
+        sp = rnd.choice(SP + [""]) if rnd.random() < 0.08 else rnd.choice(SP)
+        if kind == "labels" or (kind == "mixed" and rnd.random() < 0.5):
+            items.append(sp)
+        else:
+            items.append([sp, rnd.choice([1, 1, 2, 3, 12, 0, -1])])
+    return items
+
+
+def random_foreign(rnd, SP, IDS):
+    if rnd.random() < 0.06:
+        return None
+    edges = []
+    for _ in range(rnd.choice([0, 1, 1, 2, 3])):
+        kind = rnd.choice(["ns", "ns", "hyperedge"])
+        eid = rnd.choice(IDS + [""]) if rnd.random() < 0.7 else None
+        e = {"kind": kind, "id": eid, "rule": rnd.choice([None, "r", "", "R1", "R2"]),
+             "r": random_items(rnd, SP), "p": random_items(rnd, SP),
+             "rform": rnd.choice(SIDE_FORMS), "pform": rnd.choice(SIDE_FORMS)}
+        if kind == "ns" and eid is None:
+            e["idattr"] = rnd.choice(["none", "absent"])
+        edges.append(e)
+    return edges
+
+
+def random_form_ops(rnd, length, nslots=3, share=False, falsy=False):
+    """Histories like `random_ops`, with the add / merge ops in the other documented input forms."""
+    SP = list("ABCDEF")
+    IDS = ["r_1", "r_2", "r_3", "R1_1", "R1_2", "R2_1", "x", "r_10", "_1", ""]
+    base = random_ops(rnd, length, nslots)
+    shared_items = {key: random_items(rnd, SP) or [["A", 1], ["B", 1]] for key in range(3)}
+    ops = []
+    for op in base:
+        c = rnd.random()
+        if op["op"] == "add":
+            op = dict(op)
+            for which in ("r", "p"):
+                if rnd.random() < 0.75:
+                    op[which] = random_items(rnd, SP)
+                    op[which + "form"] = rnd.choice(SIDE_FORMS)
+                if share and rnd.random() < 0.5:
+                    key = rnd.randrange(3)
+                    op[which] = shared_items[key]
+                    op[which + "share"] = key
+                    op.pop(which + "form", None)
+                if falsy and rnd.random() < 0.4:
+                    op[which] = []
+                    op[which + "form"] = rnd.choice(FALSY_FORMS)
+            if rnd.random() < 0.1:
+                op["eid"] = rnd.choice(IDS)
+        elif op["op"] == "merge":
+            if c < 0.5:
+                op = {"op": "mergeEdges", "k": op["k"], "pfx": op["pfx"], "how": rnd.choice(["list", "iter", "tuple"]),
+                      "edges": random_foreign(rnd, SP, IDS)}
+            elif c < 0.65:
+                op = dict(op, j=op["k"])
+        ops.append(op)
+    return ops
+
+
+def strip_forms(ops, falsy=True, share=True):
+    """The same history without the falsy RXNSide data / without sharing of RXNSide objects."""
+    out = []
+    for op in ops:
+        op = dict(op)
+        for which in ("r", "p"):
+            if falsy and op.get(which + "form") in FALSY_FORMS:
+                op[which + "form"] = "rxnside"
+            if share and (which + "share") in op:
+                del op[which + "share"]
+                op[which + "form"] = "rxnside"
+        out.append(op)
+    return out
+
+
+def count_forms(ctx, ops):
+    from_items = lambda items: [("label_empty" if it == "" else "label") if isinstance(it, str) else
+                                ("pair_nonpos" if it[1] <= 0 else "pair") for it in items]
+    for op in ops:
+        if op["op"] == "add":
+            for which in ("r", "p"):
+                if (which + "share") in op:
+                    ctx.count("side_form:shared_rxnside")
+                else:
+                    ctx.count("side_form:" + mk_side(op[which], op.get(which + "form", "dict"))[1])
+                for kd in from_items(op[which]):
+                    ctx.count("side_item:" + kd)
+                keys = [it if isinstance(it, str) else it[0] for it in op[which]]
+                if len(set(keys)) < len(keys):
+                    ctx.count("side_with_repeated_species")
+        elif op["op"] == "mergeEdges":
+            if op["edges"] is None:
+                ctx.count("foreign:no_edge_list")
+                continue
+            ctx.count("foreign:edge_list_" + op.get("how", "list"))
+            ids = [e["id"] for e in op["edges"]]
+            if len([i for i in ids if i is not None]) > len({i for i in ids if i is not None}):
+                ctx.count("foreign:duplicate_ids")
+            for e in op["edges"]:
+                ctx.count("foreign_edge:" + e["kind"])
+                ctx.count("foreign_edge_id:" + ("str" if e["id"] is not None else e.get("idattr", "none")))
+                ctx.count("foreign_edge_rule:" + ("absent" if e["rule"] is None else ("empty" if e["rule"] == "" else "str")))
+        elif op["op"] == "merge" and op["j"] == op["k"]:
+            ctx.count("merge:self")
 
 
 def random_ops(rnd, length, nslots=3):
@@ -267,20 +547,38 @@ def load_regress():
 
 def nontrivial(ops, steps):
     # at least two successful edits and at least one stored reaction at some point
-    oks = sum(1 for s in steps if s["out"] not in ("KeyError", "ValueError", "IndexError"))
-    return oks >= 2 and any(st["edges"] for s in steps for st in s["world"])
+    oks = sum(1 for s in steps if s["out"] == "ok" or isinstance(s["out"], dict))
+    return oks >= 2 and any(st.get("edges") for s in steps for st in s["world"])
+
+
+def diverges(ctx, n, ops):
+    """Run one history on both sides -> compare() result."""
+    mops = []
+    impl = impl_run(n, ops, mops)
+    m = ctx.lean().ok([{"cmd": "store.run", "n": n, "ops": mops}])[0]
+    return compare(impl, m["steps"])
 
 
 def run_cases(ctx, cases, last_only, tag):
     """cases: list of (nslots, ops)."""
-    reqs = [{"cmd": "store.run", "n": n, "ops": ops} for n, ops in cases]
+    for lo in range(0, len(cases), 2500):
+        if _run_chunk(ctx, cases[lo:lo + 2500], last_only, tag):
+            return
+
+
+def _run_chunk(ctx, cases, last_only, tag):
+    impls, reqs = [], []
+    for n, ops in cases:
+        mops = []
+        impls.append(impl_run(n, ops, mops))
+        reqs.append({"cmd": "store.run", "n": n, "ops": mops})
     models = ctx.lean().ok(reqs, shards=8)
-    for (n, ops), mod in zip(cases, models):
-        impl = impl_run(n, ops)
+    for (n, ops), impl, mod in zip(cases, impls, models):
         for s in impl:
             ctx.count("outcome:" + (s["out"] if isinstance(s["out"], str) else "id"))
         for op in ops:
             ctx.count("op:" + op["op"])
+        count_forms(ctx, ops)
         ctx.case([n, ops], nontrivial(ops, impl), sample={"stream": tag, "slots": n, "ops": ops} if len(ops) <= 6 else None)
         d = compare(impl, mod["steps"], last_only)
         if d is None:
@@ -288,16 +586,62 @@ def run_cases(ctx, cases, last_only, tag):
         t, desc = d
 
         def fails(cand):
-            m = ctx.lean().ok([{"cmd": "store.run", "n": n, "ops": cand}])[0]
-            return bool(cand) and compare(impl_run(n, cand), m["steps"]) is not None
-        small = shrink_seq(ops[:t + 1], fails)
-        m = ctx.lean().ok([{"cmd": "store.run", "n": n, "ops": small}])[0]
-        d2 = compare(impl_run(n, small), m["steps"])
+            return bool(cand) and diverges(ctx, n, cand) is not None
+        # a further divergence of a class that is already on record (with a minimised input) is only counted
+        pre = classify(ops[:t + 1], fails)
+        if pre and all(c in {c2 for v in ctx.violations for c2 in v["classes"]} for c in pre):
+            for c in pre:
+                ctx.count("classified_divergence:" + c)
+            continue
+        small = shrink_edges(shrink_seq(ops[:t + 1], fails), fails)
+        d2 = diverges(ctx, n, small)
+        classes = classify(small, fails)
         ctx.violation("store state or outcome differs from the proven model after a history of edits",
                       {"slots": n, "ops": small}, {"first_divergence": d2[1] if d2 else desc, "stream": tag,
-                                                    "original_length": len(ops)})
-        if len(ctx.violations) >= 5:
-            return
+                                                    "original_length": len(ops)}, classes=classes)
+        for c in classes:
+            ctx.count("classified_divergence:" + c)
+        if len(unclassified(ctx)) >= 5:
+            return True
+    return False
+
+
+def shrink_edges(ops, fails):
+    """Second level of minimisation: drop edges of the foreign objects handed to merge."""
+    ops = list(ops)
+    for i, op in enumerate(ops):
+        if op["op"] != "mergeEdges" or not op["edges"]:
+            continue
+        edges = list(op["edges"])
+        j = 0
+        while j < len(edges) and len(edges) > 1:
+            cand = ops[:i] + [dict(op, edges=edges[:j] + edges[j + 1:])] + ops[i + 1:]
+            if fails(cand):
+                edges = edges[:j] + edges[j + 1:]
+                ops = cand
+            else:
+                j += 1
+    return ops
+
+
+def classify(ops, fails):
+    """Two defects of the unchanged tree are reachable only through RXNSide objects built by the caller
+    (RXNSide(None) / RXNSide([]) / RXNSide(()); one RXNSide object handed to add_rxn of two networks).
+    A divergence that disappears when the history is replayed without that ingredient -- and only then --
+    is attributed to it."""
+    uses_falsy = any(op.get(w + "form") in FALSY_FORMS for op in ops for w in ("r", "p"))
+    uses_share = any((w + "share") in op for op in ops for w in ("r", "p"))
+    if uses_falsy and not fails(strip_forms(ops, falsy=True, share=False)):
+        return ["rxnside_falsy_data"]
+    if uses_share and not fails(strip_forms(ops, falsy=False, share=True)):
+        return ["add_rxn_shared_rxnside"]
+    if uses_falsy and uses_share and not fails(strip_forms(ops)):
+        return ["add_rxn_shared_rxnside", "rxnside_falsy_data"]
+    return []
+
+
+def unclassified(ctx):
+    return [v for v in ctx.violations if not v["classes"]]
 
 
 def run(ctx):
@@ -305,14 +649,29 @@ def run(ctx):
         "Lean 4.33 kernel; axioms of the property theorems as listed in obligation_list",
         "hand-written model SynKitModel/Store.lean tied to /repo by this correspondence run (not by translation)",
         "Driver/Store.lean JSON codec and harness/props/c15.py adapter + canonicalisation (sorting of sets/dicts)",
-        "modelled: add_rxn (mapping inputs), add_rxn_from_str, parse_rxns (all input forms), remove_rxn, remove_species, merge, copy, "
+        "modelled: add_rxn (mapping / iterable / RXNSide inputs), merge of stores, of the store itself and of foreign objects, add_rxn_from_str, parse_rxns (all input forms), remove_rxn, remove_species, merge, copy, "
         "assign_mol, set_mol_map, incidence_matrix; not modelled: paths/neighbors",
     ]
-    ctx.assumptions = ["species labels, rules and ids are plain strings; side inputs are mappings (dict) as in add_rxn's documented use"]
-    ctx.gen_rule = ("regression corpus first; then ALL op sequences of a 37-op alphabet over 3 species / 2 rules / 2 stores "
-                    "(incl. explicit ids that look generated, merge both ways, copy) to depth 2 (quick) or 3 (thorough), compared on "
+    ctx.assumptions = [
+        "species labels, rules and ids are plain strings, counts are Python ints",
+        "side inputs: mappings, iterables (list / tuple / generator / str) of labels and of (species, count) 2-tuples, and "
+        "RXNSide objects built with RXNSide(data) / RXNSide.from_any(data); a foreign `merge` argument has well-typed edges "
+        "(attribute `rule`, when present, is a str; sides in one of the forms above)",
+        "an RXNSide handed to add_rxn is not mutated by the caller afterwards (the store mutating a caller-held RXNSide through "
+        "another network is gated: stream rxnside-shared)",
+    ]
+    ctx.gen_rule = (f"regression corpus first; then ALL op sequences of a {len(alphabet_small())}-op alphabet over 3 species / 2 rules / 2 stores "
+                    "(incl. explicit ids that look generated, merge both ways and into itself, merge of foreign objects, copy, sides "
+                    "as label / pair iterables and RXNSide objects) to depth 2 (quick) or 3 (thorough), compared on "
                     "outcome of every op and on the final state; then random histories (<=60 ops, 6 species, 3 stores, coefficients "
-                    "incl. 0, negative and multi-digit) compared after every op.")
+                    "incl. 0, negative and multi-digit) compared after every op; then forms-small: every side form "
+                    f"({', '.join(SIDE_FORMS)}) x {len(ITEM_LISTS)} item lists (empty, repeated species, empty label, non-positive "
+                    "counts, mixed) on either side, each followed by copy / remove_species / remove_rxn; random-forms: random "
+                    "histories whose add ops draw item lists (pairs / labels / mixed / unique-shuffled) and a side form per side, "
+                    "whose merges are 50% foreign objects (0-3 edges, HyperEdge or plain object, id str / None / absent / '' / "
+                    "duplicated, rule str / '' / absent, edge_list() as list / iterator / tuple, 6% without edge_list) and 15% "
+                    "self-merges; last rxnside-falsy (empty sides as RXNSide(None) / RXNSide([]) / RXNSide(())) and rxnside-shared "
+                    "(3 caller-held RXNSide objects reused across add_rxn calls and stores).")
     ctx.nontrivial_rule = "history distinct as a JSON value, with >=2 successful edits and a non-empty store at some point"
     build_and_audit(ctx, ["SynKitProofs.Props.C15"], "SynKitProofs/Audit/C15.lean", THEOREMS)
 
@@ -333,15 +692,39 @@ def run(ctx):
     else:
         for _ in range(20000):
             cases.append((2, [ctx.rnd.choice(alpha) for _ in range(4)]))
-    if not ctx.violations:
+    if not unclassified(ctx):
         run_cases(ctx, cases, True, "exhaustive-small")
     ctx.extra["exhaustive"] = False
     ctx.extra["exhaustive_part"] = f"all {len(alpha)}^d sequences for d<={depth}"
     nrand = 300 if ctx.quick else 2000
     rcases = [(3, random_ops(ctx.rnd, ctx.rnd.randint(5, 60))) for _ in range(nrand)]
-    if not ctx.violations:
+    if not unclassified(ctx):
         run_cases(ctx, rcases, False, "random")
-    ctx.obligation("correspondence: store histories impl == model (outcomes, states, indices, incidence)", not ctx.violations)
+    # ---- other documented input forms (round G15)
+    if not unclassified(ctx):
+        run_cases(ctx, forms_small(), False, "forms-small")
+    nform = 150 if ctx.quick else 1500
+    fcases = [(3, random_form_ops(ctx.rnd, ctx.rnd.randint(5, 40))) for _ in range(nform)]
+    if not unclassified(ctx):
+        run_cases(ctx, fcases, False, "random-forms")
+    # the two streams below reach defects of the unchanged tree (classes rxnside_falsy_data,
+    # add_rxn_shared_rxnside): one minimised input per class is reported, further divergences of the
+    # same class are counted, anything else they find is reported like in every other stream
+    nf = 40 if ctx.quick else 300
+    falsy_cases = [(1, [{"op": "add", "k": 0, "rule": None, "eid": None, "r": [], "p": [["A", 1]], "rform": f, "pform": "dict"}])
+                   for f in FALSY_FORMS]
+    falsy_cases += [(2, random_form_ops(ctx.rnd, ctx.rnd.randint(3, 20), nslots=2, falsy=True)) for _ in range(nf)]
+    if not unclassified(ctx):
+        run_cases(ctx, falsy_cases, False, "rxnside-falsy")
+    shared = [["A", 1], ["D", 1]]
+    share_cases = [(2, [{"op": "add", "k": 0, "rule": None, "eid": None, "r": shared, "rshare": 0, "p": [["B", 1]]},
+                        {"op": "add", "k": 1, "rule": None, "eid": None, "r": shared, "rshare": 0, "p": [["C", 1]]},
+                        {"op": "removeSpecies", "k": 0, "sp": "A", "prune": pr}]) for pr in (True, False)]
+    share_cases += [(2, random_form_ops(ctx.rnd, ctx.rnd.randint(3, 25), nslots=2, share=True)) for _ in range(nf)]
+    if not unclassified(ctx):
+        run_cases(ctx, share_cases, False, "rxnside-shared")
+    ctx.obligation("correspondence: store histories impl == model (outcomes, states, indices, incidence)", not unclassified(ctx),
+                   "" if not ctx.violations else "classified divergences: " + ", ".join(sorted({c for v in ctx.violations for c in v["classes"]})))
 
 
 def replay(ctx, case):
